@@ -183,6 +183,50 @@ theorem refreshed_can_sign (B : Base F E) (X : SignSession F E) (h : X.Ok B) (hG
   unfold lam
   rw [this, sub_self, mul_zero]
 
+/-- **End to end, distributed procedure**: after an honest distributed refresh of a sharing
+    `f` of the group key (participant `i` held `f(i)`, the old public key package listed
+    `f(i)•G`), the public key package returned by `refresh_dkg_shares` makes ANY signer set of at
+    least `t` refreshed participants succeed — the aggregate of their honest shares (computed
+    from the refreshed signing shares `f(i) + R(i)`) is released in every detection mode, under
+    the OLD group key. -/
+theorem distributed_refresh_can_sign (B : Base F E) (X : SignSession F E) (h : X.Ok B)
+    (hG : B.G ≠ 0) (hcof : B.cofactor ≠ 0) (f : List F) (me : F) (rc : F → List F) (t n : Nat)
+    (ht : 0 < t) (hrc : ∀ l, (rc l).length + 1 = t) (hft : f.length ≤ X.ids.length)
+    (htl : t ≤ X.ids.length)
+    (r1 : List (F × Round1Package F E)) (h0 : n ≠ 0) (hlen : r1.length = n - 1)
+    (hown : me ∉ SMap.keys r1) (hnd : (SMap.keys r1).Nodup)
+    (hcm : ∀ ip ∈ r1, ip.2.commitment = (rc ip.1).map fun c => c • B.G)
+    (oldPkp : PublicKeyPackage F E) (oldKp : KeyPackage F E)
+    (hmin : oldKp.minSigners = t) (hshare : oldKp.share = hornerR f me)
+    (hold : ∀ id ∈ me :: SMap.keys r1, SMap.get? oldPkp.vshares id = some (hornerR f id • B.G))
+    (hvk : X.vk = hornerR f 0 • B.G) (hovk : oldPkp.vk = X.vk)
+    (hsub : ∀ i ∈ X.ids, i ∈ me :: SMap.keys r1) (mode : CheaterDetection) :
+    ∃ kp pkp σ,
+      refreshDkgShares (Suite.ofBase B)
+        ⟨me, (rc me).map fun c => c • B.G, hornerR (0 :: rc me) me, t, n⟩ r1
+        (r1.map fun ip => (ip.1, hornerR (0 :: rc ip.1) me)) oldPkp oldKp = .ok (kp, pkp) ∧
+      aggregateCustom (Suite.ofBase B) (X.pkg B)
+        (X.sharesMap (X.honest fun i => hornerR f i +
+          ((rc me :: (SMap.keys r1).map rc).map fun c => hornerR (0 :: c) i).sum))
+        pkp mode = .ok σ := by
+  obtain ⟨kp, pkp, hrun, _, hpvk, hpmin, hvs⟩ :=
+    Frost.refreshDkgShares_honest (Suite.ofBase B) me rc (fun i => hornerR f i) t n ht hrc r1 h0
+      hlen hown hnd hcm oldPkp oldKp hmin hshare hold
+  have hrs : ∀ c ∈ rc me :: (SMap.keys r1).map rc, c.length + 1 ≤ X.ids.length := by
+    intro c hc
+    rcases List.mem_cons.mp hc with e | e
+    · subst e; have := hrc me; omega
+    · obtain ⟨l, _, rfl⟩ := List.mem_map.mp e
+      have := hrc l; omega
+  obtain ⟨σ, hσ⟩ := refreshed_can_sign B X h hG hcof f hft (rc me :: (SMap.keys r1).map rc) hrs hvk
+    pkp (by rw [hpvk, hovk]) (by
+      intro i hi
+      rw [hvs i (hsub i hi)]
+      simp only [List.map_cons, List.sum_cons, List.map_map, Function.comp_def]
+      rfl)
+    (by intro m hm; rw [hpmin] at hm; cases hm; exact htl) mode
+  exact ⟨kp, pkp, σ, hrun, hσ⟩
+
 /-- **Mixing pre-refresh and post-refresh shares fails** except on a coincidence: signers in
     `new` use `f(i) + r(i)`, the others still use `f(i)` (or are removed participants, who
     only have `f(i)`); the aggregate is released iff `c · Σ_{i ∈ new} λᵢ r(i) = 0`. -/
